@@ -22,6 +22,7 @@ Words ==
     CASE Fam = "pubsub"   -> IF Small THEN { <<"a", "b">>, <<"b", "a">>, <<"a">> } ELSE { <<"a", "b">>, <<"b", "a">>, <<"a", "a">>, <<"b", "b">>, <<"a">> }
       [] Fam = "retain"   -> IF Small THEN { <<"a">>, <<"a", "b">> } ELSE { <<"a">>, <<"a", "b">>, <<"b">> }
       [] Fam = "ending"   -> IF Small THEN { <<"a", "b">>, <<"b", "a">> } ELSE { <<"a", "b">>, <<"b", "a">>, <<"a">> }
+      [] Fam = "hostile"  -> { <<"a">>, <<"a", "b">> }
       [] Fam = "presence" -> IF Small THEN { <<"a">>, <<"a", "b">> } ELSE { <<"a">>, <<"a", "b">>, <<"b">> }
       [] OTHER            -> { <<"a", "b">>, <<"b", "a">>, <<"a">>, <<"b">>, <<"x", "x", "y">>, <<"y">> }
 Wild ==
@@ -101,16 +102,26 @@ MCLink == \E c \in Pick(Open), nm \in Pick({"L1", "L2", "toolong"}), k \in Pick(
     /\ Emit([n |-> "link", c |-> c, name |-> nm, k |-> k, w |-> w, syn |-> syn, me0 |-> me0, ttl |-> 0, sub |-> sub])
 
 MCPresence == \E c \in Pick(Open), k \in Pick({"kAll", "kWO"}), w \in Pick(Words), status \in Pick(BOOLEAN), chg \in Pick({"none", "on", "off"}) :
-    /\ In({"presence", "ending"})
-    /\ (Fam = "ending" => chg = "on" /\ ~status /\ k = "kAll")
+    /\ In({"presence", "ending", "hostile"})
+    /\ (Fam \in {"ending", "hostile"} => chg = "on" /\ ~status /\ k = "kAll")
     /\ Presence(c, k, w, "ok", status, chg, 1)
     /\ Emit([n |-> "presence", c |-> c, k |-> k, w |-> w, syn |-> "ok", status |-> status, chg |-> chg])
 
 MCEnd == \E c \in Pick(Open), how \in Pick({"disconnect", "drop", "cut", "garbage"}) :
     /\ (Gen = "sim" /\ Fam \notin {"ending"}) => RandomElement(1..4) = 1      \* endings are rarer in long random sessions
-    /\ In({"ending", "presence"}) \/ (Fam = "pubsub" /\ how = "drop")
+    /\ In({"ending", "presence"}) \/ (Fam \in {"pubsub", "hostile"} /\ how = "drop")
     /\ End(c) /\ Emit([n |-> "end", c |-> c, how |-> how])
 
+MCHostile == \E c \in Pick(Open), cls \in Pick(HostileClosing \cup HostileSurviving), closed \in BOOLEAN :
+    /\ Fam = "hostile"
+    /\ (cls \in HostileClosing => closed)
+    /\ (Gen = "sim" => (closed <=> cls \in HostileClosing))      \* the generator does not know; the trace carries what happened
+    /\ Hostile(c, cls, closed) /\ Emit([n |-> "hostile", c |-> c, cls |-> cls])
+
+MCCluster == \E fn \in Pick({"OnGossip", "OnGossipBroadcast", "OnGossipUnicast", "DecodeState", "DecodeFrame", "DecodeMessage"}), i \in Pick(0..199) :
+    /\ Fam = "hostile" /\ (Gen # "sim" => i = 0)
+    /\ ClusterHostile /\ Emit([n |-> "cluster", fn |-> fn, idx |-> i])
+
 MCNext == /\ nops < MaxOps
-          /\ (MCConnect \/ MCSubscribe \/ MCUnsubscribe \/ MCPublish \/ MCPublishVia \/ MCLink \/ MCPresence \/ MCEnd)
+          /\ (MCConnect \/ MCSubscribe \/ MCUnsubscribe \/ MCPublish \/ MCPublishVia \/ MCLink \/ MCPresence \/ MCEnd \/ MCHostile \/ MCCluster)
 =============================================================================
